@@ -101,6 +101,20 @@ func (c *c16Exec) Output(ctx context.Context, path string, command plugin.Comman
 		"supportedContractVersions", vr.JArr(vr.JStr("1.0")), "capabilities", vr.JArr(vr.JStr("SIGNATURE_VERIFIER.TRUSTED_IDENTITY")))), nil, nil
 }
 
+// ---- exported handles for the harness in package verifier (the name comes from a signature) -------------
+
+// C16Begin installs the operating-system oracle and the process oracle; the returned function restores.
+func C16Begin(exists, asDir bool, execName string) func() {
+	c16W = &c16World{exists: exists, asDir: asDir}
+	saved := executor
+	executor = &c16Exec{name: execName}
+	return func() { executor = saved }
+}
+
+// C16OpCount / C16OpAt expose the log of paths handed to the operating system.
+func C16OpCount() int { return len(c16W.log) }
+func C16OpAt(i int) (kind, path string) { return c16W.log[i].kind, c16W.log[i].path }
+
 var c16Roots = []string{"/r", "/r/p", "/r/p/q"}
 
 func c16SingleElement(name string) bool {
